@@ -690,7 +690,11 @@ def chan_coverage(summary, sim, samples, prop):
                      'encoders of older bitstreams (2.1 sequential meshes, 2.2 kd-tree '
                      'point clouds): legacy-writer stub that rewrites the container '
                      'bytes of the current encoder\'s output / frames the payload of '
-                     'FloatPointsTreeEncoder; validated by the legacy_stub canaries']),
+                     'FloatPointsTreeEncoder; validated by the legacy_stub canaries',
+                     'Byzantine Edgebreaker writer (sim/byz.cc): well-formed streams with '
+                     'freely chosen symbols, split events, start-face / seam bits and '
+                     'counts, written with the library\'s own bit / varint primitives; '
+                     'its reference instance is validated by the byz_writer canary']),
         exhaustive=False,
         samples=samples,
     )
